@@ -460,8 +460,9 @@ theorem multi_read_answer (s : Multi.MState) (p : Str) (op : Ref.Op)
 /-! ## MultiFS: listings -/
 
 /-- **Union listing, de-duplicated.**  When `listdir(p)` succeeds its value is the
-concatenation, in `iterate_fs` (priority) order, of what every member lists for `p` (members
-that do not have `p` contribute nothing), with later duplicates removed: no name twice, every
+concatenation, in `iterate_fs` (priority) order, of what every member that holds `p` as a
+directory lists for it (members that do not have `p`, or hold a — then shadowed — file of that
+name, contribute nothing: `listingOf` is empty for them), with later duplicates removed: no name twice, every
 listed name of every member present, first occurrences in order. -/
 theorem multi_listing_union_dedup (s : Multi.MState) (p : Str) (l : List Name) (meth : Meth)
     (h : (Multi.listing s meth p).2.1 = .ok (.names l)) :
@@ -490,6 +491,70 @@ theorem multi_listing_union_dedup (s : Multi.MState) (p : Str) (l : List Name) (
     · rintro ⟨e, he, hx⟩; exact ⟨e, (MultiL.mem_sortDesc _ e).1 he, hx⟩
     · rintro ⟨e, he, hx⟩; exact ⟨e, (MultiL.mem_sortDesc _ e).2 he, hx⟩
   · rw [hl]; exact MultiL.sublist_dedupGo _ _
+
+/-- **Which outcome.**  Provided every member answers the listing with names, `ResourceNotFound`
+or `DirectoryExpected` (open members, valid path): let `h` be the first member in `iterate_fs`
+order that contains the path (its answer is not `ResourceNotFound`).  There is none ⇒
+`ResourceNotFound`; `h` holds the path as a file ⇒ `DirectoryExpected`; `h` holds it as a
+directory ⇒ the de-duplicated union over the members that hold it as a directory (members
+holding a shadowed *file* of that name, or not holding it, contribute nothing). -/
+theorem multi_listing_outcome (s : Multi.MState) (p : Str) (meth : Meth)
+    (hw : MultiL.WellAnswered s.fs p (Multi.iterateFs s)) :
+    (Multi.listing s meth p).2.1 =
+      match firstHolder s.fs p (Multi.iterateFs s) with
+      | none => .err .ResourceNotFound
+      | some h =>
+        match listAnswer s.fs p h with
+        | .ok _ => .ok (.names (Multi.dedup ((Multi.iterateFs s).flatMap (listingOf s.fs p))))
+        | .err er => .err er := by
+  have := MultiL.listLoop_outcome meth p (Multi.iterateFs s) s.fs [] false hw
+  simp only [Multi.listing, this, Bool.false_eq_true, if_false, List.nil_append]
+  cases firstHolder s.fs p (Multi.iterateFs s) with
+  | none => simp
+  | some h =>
+    simp only
+    cases listAnswer s.fs p h <;> simp
+
+/-- that first member is the highest: it contains the path and its key `(priority, index)` is the
+maximum among the members containing the path -/
+theorem multi_listing_holder_highest (s : Multi.MState) (p : Str) (h : Multi.Entry)
+    (hf : firstHolder s.fs p (Multi.iterateFs s) = some h) :
+    h ∈ s.entries ∧ listAnswer s.fs p h ≠ .err .ResourceNotFound ∧
+    ∀ e ∈ s.entries, listAnswer s.fs p e ≠ .err .ResourceNotFound → KeyLe e h := by
+  have hsplit : ∀ es : List Multi.Entry, firstHolder s.fs p es = some h →
+      ∃ pre post, es = pre ++ h :: post ∧ listAnswer s.fs p h ≠ .err .ResourceNotFound ∧
+        ∀ x ∈ pre, listAnswer s.fs p x = .err .ResourceNotFound := by
+    intro es
+    induction es with
+    | nil => intro hh; simp [firstHolder] at hh
+    | cons e es ih =>
+      intro hh
+      simp only [firstHolder] at hh
+      split at hh
+      · next hnf =>
+        obtain ⟨pre, post, rfl, h1, h2⟩ := ih hh
+        refine ⟨e :: pre, post, rfl, h1, ?_⟩
+        intro x hx
+        simp only [List.mem_cons] at hx
+        rcases hx with rfl | hx
+        · exact hnf
+        · exact h2 x hx
+      · next hnf =>
+        simp only [Option.some.injEq] at hh
+        subst hh
+        exact ⟨[], es, rfl, hnf, by simp⟩
+  obtain ⟨pre, post, hs, hne, hpre⟩ := hsplit _ hf
+  have hmem : ∀ x, x ∈ Multi.iterateFs s ↔ x ∈ s.entries := MultiL.mem_sortDesc s.entries
+  have hdesc : MultiL.Desc (pre ++ h :: post) := hs ▸ MultiL.sortDesc_desc s.entries
+  refine ⟨(hmem h).1 (by rw [hs]; simp), hne, ?_⟩
+  intro e he hnf
+  have : e ∈ pre ++ h :: post := hs ▸ (hmem e).2 he
+  simp only [List.mem_append, List.mem_cons] at this
+  rcases this with hin | rfl | hin
+  · exact absurd (hpre e hin) hnf
+  · exact (MultiL.keyLe_iff _ _).1 (MultiL.keyLe_refl _)
+  · have := (List.pairwise_append.1 hdesc).2.1
+    exact (MultiL.keyLe_iff _ _).1 ((List.pairwise_cons.1 this).1 e hin)
 
 /-! ## MultiFS: writes, removals, frame -/
 
@@ -799,6 +864,18 @@ def demoMulti : Multi.MState :=
 
 example : (Multi.delegateLoop demoMulti.fs "f".toList (Multi.iterateFs demoMulti)).2.1 = .ok (some 1) := by decide
 example : (Multi.listing demoMulti .listdir []).2.1 = .ok (.names ["f".toList, "y".toList, "x".toList]) := by decide
+/-- a name that is a directory in the higher layer and a file in a lower one: the file is
+shadowed; the other way round the file answers -/
+def mixedMulti (hiDir : Bool) : Multi.MState :=
+  { fs := Fss.ofList [{ root := .dir [("b".toList, .dir [("x".toList, .file [])])], closed := false },
+                      { root := .dir [("b".toList, .file [1])], closed := false }],
+    entries := [⟨"d".toList, if hiDir then 1 else 0, 0, 0⟩, ⟨"f".toList, if hiDir then 0 else 1, 1, 1⟩],
+    sortIndex := 2, writeFs := none, closed := false, autoClose := true }
+
+example : (Multi.listing (mixedMulti true) .listdir "b".toList).2.1 = .ok (.names ["x".toList]) := by decide
+example : (Multi.listing (mixedMulti false) .listdir "b".toList).2.1 = .err .DirectoryExpected := by decide
+example : (Multi.listing (mixedMulti true) .listdir "c".toList).2.1 = .err .ResourceNotFound := by decide
+
 example : (Multi.step demoMulti (.writebytes "g".toList [1])).map (·.2.1) = some (.err .ResourceReadOnly) := by decide
 example : (Multi.step demoMulti (.create "f".toList false)).map (·.2.1) = some (.ok (.bool false)) := by decide
 
